@@ -296,10 +296,10 @@ TokM == TokQ \cup {"xml", "-", "http"}                   \* export, thorough
 FTokQ == {"osm", "osc", "pbf", "o5c", "gz", "foo", ""}
 FTokT == Keywords \cup {"foo", ""}
 NamesForFs == {<<>>, <<"test">>, <<"test", "osh", "pbf", "gz">>, <<"http://h/api">>, <<"-">>, <<"http">>}
-NamesForFsFew == {<<>>, <<"test", "osh", "pbf", "gz">>, <<"http://h/api">>}
+NamesForFsFew == {<<>>, <<"test", "osh", "pbf", "gz">>, <<"http://h/api">>, <<"-">>}
 OptsOne == {KV("history", VFalse)}
 OptsTwo == {KV("history", VFalse), KV("xml_change_format", VFalse), KeyOnly("")}
-NamesForFsMid == {<<>>, <<"test", "osh", "pbf", "gz">>, <<"http://h/api">>, <<"http">>}
+NamesForFsMid == {<<>>, <<"test", "osh", "pbf", "gz">>, <<"http://h/api">>, <<"http">>, <<"-">>}
 OptsEight == {KV("history", VTrue), KV("history", VFalse), KV("pbf_dense_nodes", <<"no">>), KV("xml_change_format", VFalse),
               KV("add_metadata", <<"version", "timestamp">>), KV("foo", <<"a=b">>), KeyOnly("history"), KeyOnly("")}
 NamesForOpts == {<<"test", "osm">>, <<"http://h/api", "osc">>}
@@ -324,7 +324,7 @@ SettersAll == {[op |-> "set_format", f |-> "pbf"], [op |-> "set_format", f |-> "
                [op |-> "set_bool", k |-> "pbf_dense_nodes", b |-> FALSE], [op |-> "set_bool", k |-> "locations_on_ways", b |-> TRUE],
                [op |-> "set_data", p |-> KV("xml_change_format", <<"yes">>)], [op |-> "set_data", p |-> KV("k", <<"a=b">>)],
                [op |-> "set_data", p |-> KeyOnly("force_visible_flag")]}
-NamesForSet == {<<>>, <<"test", "osc", "gz">>, <<"http://h/api">>}
+NamesForSet == {<<"-">>, <<"test", "osc", "gz">>, <<"http://h/api">>}
 HeadsForSet == {Fmt(<<"osh", "pbf">>), Fmt(<<"foo">>)}
 NoneSet == {}
 NoFmt == -1
